@@ -8,6 +8,7 @@ package harness
 
 import (
 	"fmt"
+	"runtime"
 	"strings"
 	"sync"
 	"sync/atomic"
@@ -26,6 +27,11 @@ func c15Scenarios(cfg runCfg) []Scenario {
 	for i := 0; i < n; i++ {
 		if cfg.mine(i) {
 			out = append(out, Scenario{Family: "round", Seed: mix(cfg.seed, 15, uint64(i)), N: 8 + int(mix(cfg.seed, 1515, uint64(i))%9)})
+		}
+	}
+	for i := 0; i < cfg.n(64, 25); i++ {
+		if cfg.mine(i) {
+			out = append(out, Scenario{Family: "fuzz-target", Seed: mix(cfg.seed, 15, 77, uint64(i)), N: 6 + int(mix(cfg.seed, 1516, uint64(i))%10)})
 		}
 	}
 	return out
@@ -140,7 +146,102 @@ func c15Prop(tr c15tree, mode int, prefix int, log *[]string, bad *string) func(
 	}
 }
 
+// c15FuzzTarget: ONE function returned by MakeFuzz (one property over one shared generator tree) is called from
+// G parallel sub-tests at once, each with its own input; every call must draw what a replay of its own input draws.
+func c15FuzzTarget(t *testing.T, sc Scenario, res *Result) {
+	tr := c15Build(sc.Seed)
+	fresh := c15Build(sc.Seed)
+	G := sc.N
+	slots := map[uint64]int{}
+	logs := make([][]string, G)
+	var cur *[][]string
+	mk := func(tr c15tree) func(rt *rapid.T) {
+		return func(rt *rapid.T) {
+			id := rapid.Uint64().Draw(rt, "id")
+			slot, ok := slots[id]
+			var lg []string
+			for i := 0; i < int(id%5); i++ {
+				rapid.Uint8().Draw(rt, "prefix")
+				runtime.Gosched()
+			}
+			for i := 0; i < 3; i++ {
+				lg = append(lg, canon(tr.gen.Draw(rt, "v")))
+				runtime.Gosched()
+			}
+			if ok && cur != nil {
+				(*cur)[slot] = lg
+			}
+		}
+	}
+	// inputs and reference draws: recordings made alone, on the fresh twin of the tree
+	refProp := mk(fresh)
+	var inputs [][]byte
+	var kinds []string
+	refs := make([][]string, G)
+	for g, try := 0, uint64(0); g < G; try++ {
+		if try > 200 {
+			res.inconclusive("no distinct ids found")
+			return
+		}
+		vs, out := rapid.VerifRecord(mix(sc.Seed, 0xf2, try)%1000003+1, refProp)
+		// the id is the first draw of the recording: replay it to read it
+		var first uint64
+		rapid.VerifReplay(vs.Data, func(rt *rapid.T) { first = rapid.Uint64().Draw(rt, "id") })
+		if _, dup := slots[first]; dup {
+			continue // (biased integers collide now and then: take the next seed)
+		}
+		slots[first] = g
+		inputs = append(inputs, wordsToBytes(vs.Data))
+		kinds = append(kinds, out.Kind)
+		g++
+	}
+	cur = &refs
+	for g := 0; g < G; g++ {
+		rapid.VerifReplay(bytesToWords(inputs[g]), refProp)
+	}
+	cur = &logs
+	fz := rapid.MakeFuzz(mk(tr))
+	status := make([]string, G)
+	t.Run("grp", func(gt *testing.T) {
+		for g := 0; g < G; g++ {
+			g := g
+			gt.Run("f", func(st *testing.T) {
+				st.Parallel()
+				defer func() {
+					switch {
+					case st.Failed():
+						status[g] = "failed"
+					case st.Skipped():
+						status[g] = "invalid"
+					default:
+						status[g] = "ok"
+					}
+				}()
+				fz(st, inputs[g])
+			})
+		}
+	})
+	res.inc("rounds")
+	res.inc("fuzz_target_rounds")
+	res.count("concurrent_checks", int64(G))
+	res.nontrivial("fuzz-target/" + tr.gx.Desc)
+	for g := 0; g < G; g++ {
+		res.count("draws_compared", int64(len(logs[g])))
+		if status[g] != kinds[g] {
+			res.violate(sc, "c15/fuzz-target-status", fmt.Sprintf("call %d of a fuzz target running %d calls at once ended %q, its input alone ends %q", g, G, status[g], kinds[g]), map[string]any{"expr": tr.gx.Desc})
+			continue
+		}
+		if strings.Join(logs[g], "|") != strings.Join(refs[g], "|") {
+			res.violate(sc, "c15/fuzz-target-draws", fmt.Sprintf("call %d of a fuzz target running %d calls at once drew other values than a replay of its own input (%d words)", g, G, len(inputs[g])/8), map[string]any{"expr": tr.gx.Desc, "got": clipList(logs[g], 4), "want": clipList(refs[g], 4)})
+		}
+	}
+}
+
 func c15Run(t *testing.T, sc Scenario, res *Result) {
+	if sc.Family == "fuzz-target" {
+		c15FuzzTarget(t, sc, res)
+		return
+	}
 	tr := c15Build(sc.Seed)
 	G := sc.N
 	setFlags(map[string]string{"rapid.seed": fmt.Sprint(sc.Seed%100003 + 1), "rapid.checks": "15", "rapid.nofailfile": "true", "rapid.shrinktime": "0s"})
